@@ -622,7 +622,12 @@ class Process:
         proc = self.parent()
         while proc is not None:
             parents.append(proc)
-            proc = proc.parent()
+            try:
+                proc = proc.parent()
+            except NoSuchProcess:
+                # An ancestor disappeared while the chain was being
+                # walked: its own parent can't be determined anymore.
+                break
         return parents
 
     def is_running(self):
